@@ -54,8 +54,9 @@ type Result struct {
 
 	Anomalies []string   `json:"anomalies,omitempty"`
 	Leaks     []LeakInfo `json:"leaks,omitempty"`
-	ProfLeak  int        `json:"profLeak,omitempty"` // scanner goroutines left behind by this parse (profile)
-	Events    string     `json:"events,omitempty"`   // compact event list of a sampled trace
+	ProfLeak  int        `json:"profLeak,omitempty"`  // library goroutines left behind by this parse (profile)
+	ProfWhere string     `json:"profWhere,omitempty"` // function such a goroutine belongs to
+	Events    string     `json:"events,omitempty"`    // compact event list of a sampled trace
 	Micros    int64      `json:"us,omitempty"`
 
 	// answers to commands
@@ -96,7 +97,7 @@ type worker struct {
 	out       *bufio.Writer
 	triage    time.Duration // hard limit of the fast triage per input
 	ngBase    int
-	leakedNow int
+	leakedIDs map[string]bool
 	slow      int
 }
 
@@ -118,6 +119,7 @@ func workerMain() {
 	dec := json.NewDecoder(in)
 	enc := json.NewEncoder(w.out)
 	w.ngBase = runtime.NumGoroutine()
+	w.leakedIDs = map[string]bool{}
 	for {
 		var req Input
 		if err := dec.Decode(&req); err != nil {
@@ -288,7 +290,7 @@ func (w *worker) runOne(in *Input) Result {
 		res.Events = encodeEvents(events)
 	}
 	if in.Prof && d.pan == nil {
-		res.ProfLeak = w.profileAfterParse()
+		res.ProfLeak, res.ProfWhere = w.profileAfterParse()
 	}
 	return res
 }
@@ -296,10 +298,10 @@ func (w *worker) runOne(in *Input) Result {
 // profileAfterParse is the hook-independent observation of C18 for one parse:
 // the number of scanner goroutines (frames of parse.(*lexer).run) that exist
 // after the entry point has returned and that did not exist before it.
-func (w *worker) profileAfterParse() int {
+func (w *worker) profileAfterParse() (int, string) {
 	for i := 0; i < 200; i++ {
-		if runtime.NumGoroutine() <= w.ngBase+w.leakedNow {
-			return 0
+		if runtime.NumGoroutine() <= w.ngBase+len(w.leakedIDs) {
+			return 0, ""
 		}
 		if i < 20 {
 			runtime.Gosched()
@@ -307,13 +309,82 @@ func (w *worker) profileAfterParse() int {
 			time.Sleep(50 * time.Microsecond)
 		}
 	}
-	n, _ := countScanners()
-	d := n - w.leakedNow
-	if d < 0 {
-		d = 0
+	// goroutines of the library (any frame of github.com/robfig/soy: scanners,
+	// but also e.g. a reader goroutine of ParseGlobals) that were not there before
+	n := 0
+	where := ""
+	gs := libraryGoroutines()
+	// settle: a goroutine that is merely late (e.g. a scanner that still has to
+	// close its channel on a loaded machine) gets up to 100 ms
+	for wait := 0; wait < 50; wait++ {
+		fresh := false
+		for _, g := range gs {
+			if !w.leakedIDs[g.id] {
+				fresh = true
+			}
+		}
+		if !fresh {
+			break
+		}
+		time.Sleep(2 * time.Millisecond)
+		gs = libraryGoroutines()
 	}
-	w.leakedNow = n
-	return d
+	for _, g := range gs {
+		if !w.leakedIDs[g.id] {
+			w.leakedIDs[g.id] = true
+			n++
+			if where == "" || (strings.Contains(where, "(*lexer)") && !strings.Contains(g.fn, "(*lexer)")) {
+				where = g.fn
+			}
+		}
+	}
+	if n == 0 {
+		// goroutines that are not the library's (runtime helpers): move the baseline
+		w.ngBase = runtime.NumGoroutine() - len(w.leakedIDs)
+	}
+	return n, where
+}
+
+type libGoroutine struct {
+	id  string
+	fn  string // the function of the library the goroutine was started in / sits in
+	blk string
+}
+
+// libraryGoroutines lists the goroutines that have a frame of the library
+// under test, except the one that is running an entry point for the harness.
+func libraryGoroutines() []libGoroutine {
+	var out []libGoroutine
+	for _, blk := range strings.Split(allStacks(), "\n\n") {
+		if !strings.Contains(blk, "github.com/robfig/soy") || strings.Contains(blk, "c05.callEntry") {
+			continue
+		}
+		m := reGoroutine.FindStringSubmatch(blk)
+		if m == nil {
+			continue
+		}
+		g := libGoroutine{id: m[1], blk: blk}
+		if strings.Contains(blk, "parse.(*lexer).run") {
+			g.fn = "parse.(*lexer).run"
+		} else {
+			// the outermost library function of the goroutine (where it was started)
+			for _, ln := range strings.Split(blk, "\n") {
+				if strings.HasPrefix(ln, "\t") || !strings.Contains(ln, "github.com/robfig/soy") || strings.HasPrefix(ln, "created by") {
+					continue
+				}
+				name := ln
+				if i := strings.LastIndex(name, "("); i > 0 {
+					name = name[:i]
+				}
+				if i := strings.LastIndex(name, "/"); i >= 0 {
+					name = name[i+1:]
+				}
+				g.fn = name
+			}
+		}
+		out = append(out, g)
+	}
+	return out
 }
 
 var reGoroutine = regexp.MustCompile(`(?m)^goroutine (\d+) \[([^\]]*)\]:`)
@@ -329,21 +400,19 @@ func allStacks() string {
 	}
 }
 
-// countScanners counts goroutines running parse.(*lexer).run.
+// countScanners counts the goroutines of the library that are still alive
+// (scanner goroutines parse.(*lexer).run and any other goroutine the library
+// started), and returns their stacks.
 func countScanners() (int, string) {
-	st := allStacks()
-	n := 0
+	gs := libraryGoroutines()
 	var sb strings.Builder
-	for _, blk := range strings.Split(st, "\n\n") {
-		if strings.Contains(blk, "parse.(*lexer).run") {
-			n++
-			if sb.Len() < 4000 {
-				sb.WriteString(blk)
-				sb.WriteString("\n\n")
-			}
+	for _, g := range gs {
+		if sb.Len() < 4000 {
+			sb.WriteString(g.blk)
+			sb.WriteString("\n\n")
 		}
 	}
-	return n, sb.String()
+	return len(gs), sb.String()
 }
 
 // pollScanners waits up to d for every scanner goroutine to exit.
